@@ -430,6 +430,45 @@ def run_c19(tier, seed, bins, drv):
                 elif len(srch["samples"]) < 3:
                     srch["samples"].append({"class": "transcript_equal", "input": {"case": line[:160], "output": (im_b.get(cid) or "")[:80]}})
     corr["profiles"] = ["debug(rust backend)"]
+    # the decoding / identity / acceptance searches of the other properties on both builds: a search class that fails
+    # under exactly one backend is an input on which the two builds decide differently (a class that fails under
+    # both is that property's violation, not a backend difference, and is left to its own check)
+    import concurrent.futures
+    sprops = ("C02", "C04", "C09", "C15", "C16", "C17") if tier == "quick" else tuple("C%02d" % i for i in range(1, 21) if i != 19)
+    known = load_known()
+
+    def one_search(arg):
+        name, b, p = arg
+        rc, so, se = sh([b, "search", p, "quick", str(seed)], timeout=6000)
+        fails, evals = [], 0
+        if rc != 0:
+            fails.append({"class": "search-crashed", "input": se[-400:]})
+        for l in so.splitlines():
+            if l.startswith("FAIL "):
+                f = json.loads(l[5:])
+                if not match_known(p, f, known):
+                    fails.append(f)
+            elif l.startswith("SUMMARY "):
+                evals = json.loads(l[8:])["evaluations"]
+        return name, p, fails, evals
+    jobs = [(n, b, p) for p in sprops for (n, b) in (("blst", bins["debug"]), ("rust", rbin))]
+    res = {}
+    with concurrent.futures.ThreadPoolExecutor(max_workers=8) as ex:
+        for name, p, fails, evals in ex.map(one_search, jobs):
+            res[(p, name)] = fails
+            srch["evaluations"] += evals; srch["distinct"] += evals
+            srch["classes"]["search_on_%s:%s" % (name, p)] = evals
+    for p in sprops:
+        cb = {}
+        for name in ("blst", "rust"):
+            for f in res[(p, name)]:
+                cb.setdefault(f.get("class"), {}).setdefault(name, []).append(f)
+        for cls, by in cb.items():
+            if len(by) == 1:
+                name = list(by)[0]
+                for f in by[name][:5]:
+                    srch["failures"].append({"class": "backends_decide_differently", "profile": "fails under %s only" % name,
+                                             "input": {"property_search": p, "search_class": cls, "input": f.get("input")}})
     # cross-consumption of randomized artefacts, both directions
     for (pb, cb, name) in ((bins["debug"], rbin, "blst->rust"), (rbin, bins["debug"], "rust->blst")):
         rc, doc, err = sh([pb, "c19-produce", tier, str(seed)], timeout=3000)
@@ -578,6 +617,10 @@ def replay(prop, path):
         srch = run_search(prop, r.get("tier", "quick"), r.get("seed", 1), bins)
         if cfg.get("extra"):
             srch = merge_search(srch, run_extra(cfg["extra"], bins))
+        if prop == "C19" and "debug" in bins:
+            okd, drv, _ = build_driver()
+            if okd:
+                srch = merge_search(srch, run_c19(r.get("tier", "quick"), r.get("seed", 1), bins, drv)[1])
         known = load_known()
         still = [f for f in srch["failures"] if f.get("class") in search_classes and not match_known(prop, f, known)]
         print("search classes recorded: %s; failing now: %d" % (sorted(search_classes), len(still)))
